@@ -134,6 +134,42 @@ def hemisphere_set_is_canonical(quaternions, upper, result):
     return True
 
 
+def upper_test_is_first_nonzero_positive(q, result):
+    """the predicate behind get_upper_indices, the Voronoi half selection and the polytope half: true exactly when the first
+    non-zero coordinate is positive (same unspecified band as above)"""
+    mon = "C07.upper_predicate"
+    try:
+        v = np.asarray(q, dtype=float)
+        if v.ndim != 1 or np.any((np.abs(v) > 1e-12) & (np.abs(v) < 1e-6)):
+            REC.skip(mon, "coordinate in the unspecified zero band")
+            return True
+        REC.check(mon, bool(result) == canonical(v), lambda: {"q": v, "returned": bool(result)})
+    except Exception as e:
+        REC.crashed("C07.oracle_error", e)
+    return True
+
+
+def drive_upper_predicate(n, seed):
+    """hostile inputs for the predicate: leading coordinates that are small (1e-6..1e-1) against the later ones, of either sign, or
+    exactly zero; 3- and 4-vectors"""
+    import molgri.space.utils as U
+    rng = np.random.default_rng(seed + 77)
+    REC.begin_case({"kind": "upper predicate", "n": n}, cls="upper predicate")
+    for it in range(n):
+        d = 4 if it % 3 else 3
+        v = rng.normal(size=d)
+        k = int(rng.integers(0, d))
+        for c in range(k):
+            v[c] = 0.0 if rng.random() < 0.4 else v[c] * 10.0 ** rng.uniform(-5.9, -1)
+        v /= np.linalg.norm(v)
+        try:
+            U.q_in_upper_sphere(v)
+            U.q_in_upper_sphere(-v)
+        except Exception as e:
+            REC.crashed("C07.call_raised", e)
+    REC.nontrivial_case(("upper predicate", seed))
+
+
 def drive_hemisphere(n_batches, seed):
     """hostile inputs for the selection: leading coordinates that are tiny, zero, or of opposite sign to the next one"""
     import molgri.space.utils as U
@@ -221,6 +257,7 @@ def drive_churn(F3, F4, seed, rounds):
 def install():
     import molgri.space.utils as U
     attach.ensure(U, "hemisphere_quaternion_set", hemisphere_set_is_canonical)
+    attach.ensure(U, "q_in_upper_sphere", upper_test_is_first_nonzero_positive)
     from molgri.space.rotobj import SphereGrid3DFactory, SphereGrid4DFactory
     attach.ensure(SphereGrid3DFactory, "create", grid3d_is_N_distinct_unit_points)
     attach.ensure(SphereGrid4DFactory, "create", grid4d_is_N_unique_rotations)
@@ -294,6 +331,7 @@ def run_shard(spec):
     if spec.get("by_name"):
         by_name(F3, F4)
         drive_hemisphere(10 if spec["tier"] == "quick" else 100, spec.get("seed", 0))
+        drive_upper_predicate(4000 if spec["tier"] == "quick" else 40000, spec.get("seed", 0))
         drive_consumers()
         drive_single_shell_consumers()
     if spec.get("churn"):
